@@ -272,9 +272,14 @@ Section Model.
   Lemma prefs_null_ok : prefs_ok prefs_null.
   Proof. unfold prefs_ok, prefs_null. cbn. lia. Qed.
 
+  (* the preferences as compressBegin stores them *)
+  Definition eff_prefs (po : option prefs) : prefs :=
+    let p0 := match po with Some p => p | None => prefs_null end in
+    if p_bsid p0 =? 0 then set_bsid p0 LZ4F_BLOCKSIZEID_DEFAULT else p0.
+
   Lemma begin_inv : forall c0 po dk hdr c1,
     prefs_opt_ok po -> compressBegin c0 po dk = (Out hdr, c1) ->
-    exists p maxb, prefs_norm p /\ bsid_size (p_bsid p) = Some maxb /\
+    exists p maxb, p = eff_prefs po /\ prefs_norm p /\ bsid_size (p_bsid p) = Some maxb /\
                    hdr = header_bytes (desc_of p) /\ Inv dk p maxb [] c1 [].
   Proof.
     intros c0 po dk hdr c1 Hpo H.
@@ -308,7 +313,7 @@ Section Model.
     { unfold compressBegin in H. destruct dk as [|d|d];
         destruct (Hgen _ _ H) as [A [B [C [D [E [F [G [I1 [J K]]]]]]]]]; repeat split; assumption. }
     destruct Hfin as [A [B [C [E [F [G [I1 [J [D K]]]]]]]]].
-    split; [exact Hp|]. split; [exact Hmaxb|]. split.
+    split; [reflexivity|]. split; [exact Hp|]. split; [exact Hmaxb|]. split.
     - rewrite A. apply frame_header_spec. exact Hp.
     - pose proof (bsid_size_range _ _ Hmaxb).
       constructor.
@@ -507,5 +512,149 @@ Section Model.
       intros _ Elinked.
       assert (Hm3 : c_mode c3 = bc) by (subst c3 c2; cbn; rewrite Hmode1; exact Hmode0).
       destruct (0 <? len rest3); cbn; rewrite Hm3; apply Hbc; exact Elinked.
+  Qed.
+
+  (* ---- LZ4F_compressEnd ---- *)
+  Lemma end_inv : forall dk p maxb X c bl tail c',
+    prefs_norm p -> 0 < maxb < 2147483648 ->
+    Inv dk p maxb X c bl -> len X < U64 ->
+    compressEnd blk c = (Out tail, c') ->
+    exists bl', tail = enc_blocks (p_bcrc p =? 1) bl' ++ le_bytes 4 0
+                       ++ (if p_ccrc p =? 1 then le_bytes 4 (xxh32 0 X) else []) /\
+                X = contents (bl ++ bl') /\
+                chain bdec (p_blockMode p =? 1) (dict_of dk) maxb [] (bl ++ bl') /\
+                (p_contentSize p <> 0 -> p_contentSize p = len X).
+  Proof.
+    intros dk p maxb X c bl tail c' Hp Hmax HI HX H.
+    unfold compressEnd in H.
+    destruct (flush blk c) as [r c1] eqn:Ef.
+    destruct (flush_inv dk p maxb X c bl r c1 Hp Hmax HI Ef) as [bl' [Hr [HI1 [Ht1 _]]]].
+    subst r. cbv zeta in H.
+    destruct HI1 as [[H1 H2 H3 H4 H5 H6 H7] HX1 Htmp1 Hxxh1 Htot1 Hmode1].
+    assert (Hpr : c_prefs (set_stage c1 0) = p) by (cbn; exact H1).
+    rewrite Hpr, H1 in H.
+    assert (Htot2 : c_totalIn (set_stage c1 0) = c_totalIn c1) by reflexivity.
+    rewrite Htot2 in H.
+    exists bl'.
+    destruct (negb (p_contentSize p =? 0) && negb (p_contentSize p =? c_totalIn c1)) eqn:Ecs; [discriminate|].
+    pose proof (f_equal (fun r => match r with (Out t, _) => t | _ => [] end) H) as Ho. cbv beta iota in Ho.
+    pose proof Hp as [[_ [_ [Hcc _]]] _].
+    split; [|split; [|split]].
+    - rewrite <- Ho. rewrite !writeLE32_eq.
+      destruct Hcc as [E | E]; rewrite E in *; cbn [Z.eqb Pos.eqb]; unfold FC_contentChecksumEnabled; cbn [Z.eqb Pos.eqb].
+      + reflexivity.
+      + rewrite (Hxxh1 eq_refl). reflexivity.
+    - rewrite HX1, Ht1, app_nil_r. reflexivity.
+    - exact H6.
+    - intros Hne. specialize (Htot1 Hne). pose proof (len_nonneg X).
+      rewrite Z.mod_small in Htot1 by lia. lia.
+  Qed.
+
+  (* a declared content size that differs from the real one makes compressEnd fail *)
+  Lemma end_wrong : forall dk p maxb X c bl,
+    prefs_norm p -> 0 < maxb < 2147483648 ->
+    Inv dk p maxb X c bl -> len X < U64 ->
+    p_contentSize p <> 0 -> p_contentSize p <> len X ->
+    exists c', compressEnd blk c = (Err FC_ERR_frameSize_wrong, c').
+  Proof.
+    intros dk p maxb X c bl Hp Hmax HI HX Hne Hneq.
+    unfold compressEnd.
+    destruct (flush blk c) as [r c1] eqn:Ef.
+    destruct (flush_inv dk p maxb X c bl r c1 Hp Hmax HI Ef) as [bl' [Hr [HI1 [Ht1 _]]]].
+    subst r. cbv zeta.
+    destruct HI1 as [[H1 H2 H3 H4 H5 H6 H7] HX1 Htmp1 Hxxh1 Htot1 Hmode1].
+    assert (Hpr : c_prefs (set_stage c1 0) = p) by (cbn; exact H1).
+    assert (Htot2 : c_totalIn (set_stage c1 0) = c_totalIn c1) by reflexivity.
+    rewrite Hpr, Htot2. specialize (Htot1 Hne). pose proof (len_nonneg X).
+    rewrite Z.mod_small in Htot1 by lia. rewrite Htot1.
+    destruct (Z.eqb_spec (p_contentSize p) 0); [contradiction|].
+    destruct (Z.eqb_spec (p_contentSize p) (len X)); [contradiction|].
+    cbn [negb andb]. eexists. reflexivity.
+  Qed.
+
+  (* ---- any list of update / uncompressedUpdate / flush calls ---- *)
+  Lemma run_mops_inv : forall dk p maxb ms X c bl body c',
+    prefs_norm p -> 0 < maxb < 2147483648 ->
+    Inv dk p maxb X c bl ->
+    (forall m, In m ms -> is_uncompressed m = true -> p_blockMode p = 1) ->
+    run_mops blk c ms = Some (body, c') ->
+    exists bl', body = enc_blocks (p_bcrc p =? 1) bl' /\ Inv dk p maxb (X ++ mop_inputs ms) c' (bl ++ bl').
+  Proof.
+    induction ms as [|m ms IH]; intros X c bl body c' Hp Hmax HI Hunc H.
+    - cbn in H. inversion H; subst body c'. exists []. cbn. rewrite !app_nil_r. split; [reflexivity|exact HI].
+    - cbn [run_mops] in H.
+      destruct (step_mop blk c m) as [r c1] eqn:Es.
+      destruct r as [code|o|]; try discriminate.
+      destruct (run_mops blk c1 ms) as [[o2 c2]|] eqn:Er; [|discriminate].
+      inversion H; subst body c'. clear H.
+      assert (Hstep : exists bl1 X1, o = enc_blocks (p_bcrc p =? 1) bl1 /\ Inv dk p maxb X1 c1 (bl ++ bl1) /\
+                                      X1 ++ mop_inputs ms = X ++ mop_inputs (m :: ms)).
+      { destruct m as [s|s|]; cbn [step_mop] in Es.
+        - destruct (update_inv dk p maxb X c bl s FC_LZ4B_COMPRESSED o c1 Hp Hmax HI (fun _ => eq_refl) Es)
+            as [bl1 [Ho HI1]].
+          exists bl1, (X ++ s). split; [exact Ho|]. split; [exact HI1|]. cbn [mop_inputs]. rewrite app_assoc. reflexivity.
+        - assert (Hind : p_blockMode p = 1) by (apply (Hunc (MUncompressed s)); [left; reflexivity|reflexivity]).
+          destruct (update_inv dk p maxb X c bl s FC_LZ4B_UNCOMPRESSED o c1 Hp Hmax HI
+                               ltac:(intros E; rewrite E in Hind; discriminate) Es) as [bl1 [Ho HI1]].
+          exists bl1, (X ++ s). split; [exact Ho|]. split; [exact HI1|]. cbn [mop_inputs]. rewrite app_assoc. reflexivity.
+        - destruct (flush_inv dk p maxb X c bl (Out o) c1 Hp Hmax HI Es) as [bl1 [Ho [HI1 _]]].
+          exists bl1, X. split; [congruence|]. split; [exact HI1|]. reflexivity. }
+      destruct Hstep as [bl1 [X1 [Ho [HI1 HX1]]]].
+      destruct (IH X1 c1 (bl ++ bl1) o2 c2 Hp Hmax HI1 ltac:(intros m0 Hin; apply Hunc; right; exact Hin) Er)
+        as [bl2 [Ho2 HI2]].
+      exists (bl1 ++ bl2). split; [rewrite enc_blocks_app, Ho, Ho2; reflexivity|].
+      rewrite <- HX1, app_assoc. exact HI2.
+  Qed.
+
+  (* ---- a whole frame ---- *)
+  Theorem session_structure : forall c0 po dk ms F X,
+    prefs_opt_ok po ->
+    (forall m, In m ms -> is_uncompressed m = true -> p_blockMode (eff_prefs po) = 1) ->
+    len X < U64 ->
+    session blk c0 po dk ms = Some (F, X) ->
+    exists maxb bl,
+      let p := eff_prefs po in
+      prefs_norm p /\ bsid_size (p_bsid p) = Some maxb /\
+      F = header_bytes (desc_of p) ++ enc_blocks (p_bcrc p =? 1) bl ++ le_bytes 4 0
+          ++ (if p_ccrc p =? 1 then le_bytes 4 (xxh32 0 X) else []) /\
+      X = contents bl /\
+      chain bdec (p_blockMode p =? 1) (dict_of dk) maxb [] bl /\
+      (p_contentSize p <> 0 -> p_contentSize p = len X).
+  Proof.
+    intros c0 po dk ms F X Hpo Hunc HX H. unfold session in H.
+    destruct (compressBegin c0 po dk) as [r c1] eqn:Eb.
+    destruct r as [code|hdr|]; try discriminate.
+    destruct (begin_inv c0 po dk hdr c1 Hpo Eb) as [p [maxb [Ep [Hp [Hmaxb [Hhdr HI]]]]]].
+    pose proof (bsid_size_range _ _ Hmaxb) as Hmax.
+    destruct (run_mops blk c1 ms) as [[body c2]|] eqn:Er; [|discriminate].
+    rewrite <- Ep in Hunc.
+    destruct (run_mops_inv dk p maxb ms [] c1 [] body c2 Hp Hmax HI Hunc Er) as [bl1 [Hbody HI2]].
+    cbn [app] in HI2.
+    destruct (compressEnd blk c2) as [r c3] eqn:Ee.
+    destruct r as [code|tail|]; try discriminate.
+    inversion H; subst F X. clear H.
+    destruct (end_inv dk p maxb _ c2 bl1 tail c3 Hp Hmax HI2 HX Ee) as [bl2 [Htail [HXc [Hch Hcs]]]].
+    exists maxb, (bl1 ++ bl2). cbv zeta. rewrite <- Ep.
+    split; [exact Hp|]. split; [exact Hmaxb|].
+    split; [rewrite Hhdr, Hbody, Htail, enc_blocks_app, <- !app_assoc; reflexivity|].
+    split; [exact HXc|]. split; [exact Hch|exact Hcs].
+  Qed.
+
+  Theorem session_audit : forall c0 po dk ms F X,
+    prefs_opt_ok po ->
+    (forall m, In m ms -> is_uncompressed m = true -> p_blockMode (eff_prefs po) = 1) ->
+    len X < U64 ->
+    session blk c0 po dk ms = Some (F, X) ->
+    exists nb, frame_audit bdec (dict_of dk) F = Some (desc_of (eff_prefs po), X, [], nb).
+  Proof.
+    intros c0 po dk ms F X Hpo Hunc HX H.
+    destruct (session_structure c0 po dk ms F X Hpo Hunc HX H) as [maxb [bl Hs]]. cbv zeta in Hs.
+    destruct Hs as [Hp [Hmaxb [HF [HXc [Hch Hcs]]]]].
+    exists (Z.of_nat (length bl)).
+    set (p := eff_prefs po) in *.
+    pose proof (frame_audit_structured bdec (desc_of p) (dict_of dk) bl maxb [] (desc_of_wf p Hp) Hmaxb) as HA.
+    cbn [f_indep f_bcrc f_ccrc f_csize f_bsid desc_of] in HA.
+    rewrite app_nil_r in HA. rewrite HF, HXc. apply HA; [exact Hch|].
+    destruct (Z.eqb_spec (p_contentSize p) 0) as [E|E]; [exact I|]. rewrite <- HXc. apply Hcs. exact E.
   Qed.
 End Model.
